@@ -457,3 +457,38 @@ M("c19-as-disconnected-drops-score", "C19", "R19.3", RP, "        return Disconn
 M("c19-self-connect-not-dropped", "C19", "R19.4", RP, "            self.local_peer.network_manager.my_addresses.add((self.host, self.port))\n            self.local_peer.disconnect(self, \"connection to self\")", "            self.local_peer.network_manager.my_addresses.add((self.host, self.port))")
 M("c19-backoff-cap", "C19", "R19.3", NP, "MAX_TIME_BETWEEN_CONNECTION_ATTEMPTS = 60 * 30", "MAX_TIME_BETWEEN_CONNECTION_ATTEMPTS = 60 * 60 * 30")
 M("c19-inc-always", "C19", "R19.3", MGR, "            if not remote_peer.hello_received:\n                remote_peer.ban_score += 1", "            if True:\n                remote_peer.ban_score += 1")
+
+# ----------------------------------------------------------------------------------------------- C10
+M("c10-drop-irt0", "C10", ["R10.1", "R09.6"], RP, "            if block == coinstate_changed.head() and header.in_response_to == 0:", "            if block == coinstate_changed.head():")
+M("c10-drop-pool-dedupe", "C10", ["R10.2", "R13.4"], RP, "        if transaction in self.local_peer.chain_manager.transaction_pool:\n            return\n", "")
+M("c10-start-no-plus-one", "C10", "R10.3", RP, "                start_height = coinstate.block_by_hash[potential_start_hash].height + 1  # + 1: sent hash is last known", "                start_height = coinstate.block_by_hash[potential_start_hash].height")
+M("c10-max-height-minus", "C10", "R10.3", RP, "        max_height = coinstate.head().height + 1  # + 1: range is exclusive", "        max_height = coinstate.head().height - 1  #")
+M("c10-locator-9", "C10", "R10.5", MGR, "    oldness = list(range(10)) + [pow(x, 2) for x in range(4, 64)]", "    oldness = list(range(1, 10)) + [pow(x, 2) for x in range(4, 64)]")
+M("c10-no-block-requested", "C10", "R10.4", RP, "                        item.block_requested = True\n", "")
+M("c10-batch-499", "C10", "R10.3", NP, "GET_BLOCKS_INVENTORY_SIZE = 500", "GET_BLOCKS_INVENTORY_SIZE = 499")
+M("c10-no-next-batch", "C10", "R10.4", RP, "        get_blocks_message = GetBlocksMessage([message.items[-1].hash])\n        self.send_message(get_blocks_message, prev_header=header)\n", "")
+M("c10-next-batch-from-first", "C10", "R10.4", RP, "        get_blocks_message = GetBlocksMessage([message.items[-1].hash])", "        get_blocks_message = GetBlocksMessage([message.items[0].hash])")
+M("c10-accept-any-known", "C10", "R10.3", RP, "                if coinstate.by_height_at_head()[start_height].previous_block_hash == potential_start_hash:\n", "                if True:\n")
+M("c10-fetch-never-after-start", "C10", "R10.6", MGR, "            or (current_time <= self.started_at + 60)  # always sync w/ network right after restart\n", "")
+M("c10-locator-from-genesis", "C10", "R10.5", MGR, "        heights = get_recent_block_heights(self.coinstate.head().height)", "        heights = get_recent_block_heights(self.coinstate.head().height - 1)")
+M("c10-empty-keeps-waiting", "C10", "R10.4", RP, "            self.waiting_for_inventory = False\n            return", "            return")
+M("c10-fallback-zero", "C10", "R10.3", RP, "            start_height = 1  # genesis is last known", "            start_height = 2  # genesis is last known")
+
+# ----------------------------------------------------------------------------------------------- C20
+M("c20-except-valueerror", "C20", "R20.1", LP, "        except Exception as e:\n            # We take the position", "        except ValueError as e:\n            # We take the position")
+M("c20-handler-reraises", "C20", "R20.1", LP, "            self.disconnect(remote_peer, \"Exception\")\n", "            self.disconnect(remote_peer, \"Exception\")\n            raise\n")
+M("c20-send-outside-try", "C20", "R20.1", LP,
+  "            if mask & selectors.EVENT_WRITE:\n                remote_peer.handle_can_send(sock)\n\n        except OSError as e:",
+  "        except OSError as e:")
+M("c20-drop-hello-guard", "C20", "R20.3", RP, "        if not self.hello_received:\n            raise Exception(\"First message must be Hello\")\n", "")
+M("c20-dispatch-return-none", "C20", "R20.3", RP, "        raise NotImplementedError(\"%s\" % message)", "        return None")
+M("c20-call-from-manager-step", "C20", "R20.2", MGR, "        for peer in list(self.connected_peers.values()):\n            peer.step(current_time)", "        for peer in list(self.connected_peers.values()):\n            peer.step(current_time)\n            peer.handle_receive_data(b'')")
+M("c20-disconnect-unguarded", "C20", "R20.1", LP, "        try:\n            self.selector.unregister(remote_peer.sock)\n            remote_peer.sock.close()\n            self.network_manager.handle_peer_disconnected(remote_peer)\n\n        except Exception:",
+  "        self.selector.unregister(remote_peer.sock)\n        try:\n            remote_peer.sock.close()\n            self.network_manager.handle_peer_disconnected(remote_peer)\n\n        except Exception:")
+M("c20-data-unknown-ignored", "C20", "R20.3", RP, "        raise NotImplementedError(\"Unknown DataMessage objects for now\")", "        return None")
+M("c20-handler-writes-pool", "C20", "R20.4", RP, "        if self.local_peer.chain_manager.add_transaction_to_pool(transaction):", "        self.local_peer.chain_manager.transaction_pool.append(transaction)\n        if self.local_peer.chain_manager.add_transaction_to_pool(transaction):")
+M("c20-handler-no-disconnect", "C20", "R20.1", LP, "            self.logger.info(\"%15s Disconnecting remote peer %s\" % (remote_peer.host, e))\n            self.disconnect(remote_peer, \"OS error\")", "            self.logger.info(\"%15s Disconnecting remote peer %s\" % (remote_peer.host, e))")
+M("c20-unknown-msg-tag-tolerated", "C20", ["R20.3", "R07.4"], MSG, "        raise DeserializationError(\"Non-supported message type\")", "        return GetPeersMessage()")
+M("c20-recv-outside-try", "C20", "R20.1", LP, "        try:\n            if mask & selectors.EVENT_READ:\n                recv_data = sock.recv(1024)\n", "        recv_data = sock.recv(1024) if mask & selectors.EVENT_READ else b''\n        try:\n            if mask & selectors.EVENT_READ:\n")
+M("c20-getdata-any-type", "C20", "R20.3", RP, "        if get_data_message.data_type != DATA_BLOCK:\n            raise NotImplementedError(\"We can only deal w/ DATA_BLOCK GetDataMessage objects for now\")\n", "")
+M("c20-disconnect-other-peer", "C20", "R20.1", LP, "            self.network_manager.handle_peer_disconnected(remote_peer)\n\n        except Exception:\n            # yes yes", "            for p in list(self.network_manager.connected_peers.values()):\n                self.network_manager.handle_peer_disconnected(p)\n\n        except Exception:\n            # yes yes")
